@@ -109,7 +109,7 @@ pub fn gen_op(r: &mut Rng, kind: OpKind) -> Op {
             vec![li, n, r.pick(&[0u32, 1, 2]), r.pick(&[0u32, 1]), 0]
         }
         DeReal => vec![len_idx(r), 1, r.below(3), 0, 0],
-        WideOp => vec![r.below(8), r.below(6), if r.chance(1, 2) { 0 } else { r.below(3) }],
+        WideOp => vec![r.below(9), r.below(7), if r.chance(1, 2) { 0 } else { r.below(3) }, r.below(1 << 20), r.below(12)],
     };
     Op::new(kind, &args)
 }
@@ -201,6 +201,7 @@ const ITER_OPS: &[(OpKind, u32)] = &[
     (ItCollect, 2),
     (ItCloneFrom, 4),
     (DropObj, 2),
+    (WideOp, 3),
 ];
 
 const HEAP_OPS: &[(OpKind, u32)] = &[
@@ -562,6 +563,9 @@ pub fn gen_trace(prop: Prop, seed: u64) -> Trace {
                 // clone_from needs two iterators over arrays of the same length
                 if op.kind == ItCloneFrom && r.chance(3, 4) {
                     let _ = with_fresh_operand(r, &mut ops, &mut op);
+                }
+                if op.kind == WideOp {
+                    op.args[0] = 8;
                 }
                 ops.push(op);
             }
